@@ -92,7 +92,10 @@ func (fr *Frame) cutLoop(b *ssa.BasicBlock, preds []*ssa.BasicBlock, ins []edgeI
 			ctx.override = entryVals
 			parts := ctx.evalSplit(c.Expr)
 			for j, g := range parts {
-				e.oblige(fmt.Sprintf("%s#%s:inv-init:%d/%d", e.topKey(), label, i+1, j+1), "inv-init", st.reach, g, fr.pos(b.Instrs[0].Pos()), "loop invariant on entry: "+c.Src, c.Tags)
+				o := e.oblige(fmt.Sprintf("%s#%s:inv-init:%d/%d", e.topKey(), label, i+1, j+1), "inv-init", st.reach, g, fr.pos(b.Instrs[0].Pos()), "loop invariant on entry: "+c.Src, c.Tags)
+				if len(parts) > 1 {
+					o.Group = fmt.Sprintf("%s#%s:inv-init:%d", e.topKey(), label, i+1)
+				}
 			}
 		}
 	}
@@ -124,12 +127,33 @@ func (fr *Frame) cutLoop(b *ssa.BasicBlock, preds []*ssa.BasicBlock, ins []edgeI
 		nw := e.fresh(k, srt)
 		h.m[k] = nw
 		h.mark(k, dry.dirty[k])
+		e.assumeClosure(k, nw, h.alloc)
 		if dry.dirty[k] > serial0 && !strings.HasPrefix(k, "IT_") {
 			// only freshly allocated cells were written: everything that existed at loop entry is unchanged
 			e.assume("true", fmt.Sprintf("(forall ((r Int)) (! (=> (<= r %s) (= (select %s r) (select %s r))) :pattern ((select %s r))))", allocIn, nw, old, nw))
 		}
 		if strings.HasPrefix(k, "IT_") {
 			fr.iterFacts(k, nw, h)
+		}
+	}
+	// automatic frame invariants: cells outside the top-level modifies clause keep their entry values
+	li.frameInv = nil
+	if e.dry == 0 {
+		if whole, cells, ok := e.topModifies(); ok {
+			for _, k := range names {
+				if _, w := whole[k]; w || strings.HasPrefix(k, "IT_") || dry.dirty[k] > serial0 {
+					continue
+				}
+				var refs []string
+				for _, c := range cells {
+					if c.arr == k {
+						refs = append(refs, c.ref)
+					}
+				}
+				li.frameInv = append(li.frameInv, frameInvItem{name: k, sort: e.hsort(k), refs: refs})
+				e.oblige(fmt.Sprintf("%s#%s:frame-init:%s", e.topKey(), label, k), "frame", st.reach, e.frameGoal(e.harr(st.heap, k, e.hsort(k)), k, refs), fr.pos(b.Instrs[0].Pos()), "loop frame on entry: "+k+" unchanged outside the modifies clause", nil)
+				e.assume("true", e.frameFact(h.m[k], k, refs))
+			}
 		}
 	}
 	for _, phi := range phis {
@@ -258,6 +282,10 @@ func (fr *Frame) backEdge(from, to *ssa.BasicBlock, reach string, h *Heap) {
 		return
 	}
 	if li.spec == nil {
+		label := fmt.Sprintf("%sloop%d", fr.callpath, li.ord)
+		for _, fi := range li.frameInv {
+			e.oblige(fmt.Sprintf("%s#%s:frame-keep:%s@b%d", e.topKey(), label, fi.name, from.Index), "frame", reach, e.frameGoal(e.harr(h, fi.name, fi.sort), fi.name, fi.refs), fr.pos(to.Instrs[0].Pos()), "loop frame preserved: "+fi.name+" unchanged outside the modifies clause", nil)
+		}
 		return
 	}
 	// inv-keep: header phis take the values flowing along this edge
@@ -270,12 +298,18 @@ func (fr *Frame) backEdge(from, to *ssa.BasicBlock, reach string, h *Heap) {
 		}
 	}
 	label := fmt.Sprintf("%sloop%d", fr.callpath, li.ord)
+	for _, fi := range li.frameInv {
+		e.oblige(fmt.Sprintf("%s#%s:frame-keep:%s@b%d", e.topKey(), label, fi.name, from.Index), "frame", reach, e.frameGoal(e.harr(h, fi.name, fi.sort), fi.name, fi.refs), fr.pos(to.Instrs[0].Pos()), "loop frame preserved: "+fi.name+" unchanged outside the modifies clause", nil)
+	}
 	for i, c := range li.spec.Invariants {
 		ctx := fr.specCtx(h, to)
 		ctx.override = over
 		parts := ctx.evalSplit(c.Expr)
 		for j, g := range parts {
-			e.oblige(fmt.Sprintf("%s#%s:inv-keep:%d/%d@b%d", e.topKey(), label, i+1, j+1, from.Index), "inv-keep", reach, g, fr.pos(to.Instrs[0].Pos()), "loop invariant preserved: "+c.Src, c.Tags)
+			o := e.oblige(fmt.Sprintf("%s#%s:inv-keep:%d/%d@b%d", e.topKey(), label, i+1, j+1, from.Index), "inv-keep", reach, g, fr.pos(to.Instrs[0].Pos()), "loop invariant preserved: "+c.Src, c.Tags)
+			if len(parts) > 1 {
+				o.Group = fmt.Sprintf("%s#%s:inv-keep:%d@b%d", e.topKey(), label, i+1, from.Index)
+			}
 		}
 	}
 }
@@ -382,7 +416,7 @@ func (fr *Frame) instr(in ssa.Instruction, idx int, st *BState) {
 		r := e.newRef(h, fr.vname(x)+"#arr")
 		et := x.Type().Underlying().(*types.Slice).Elem()
 		for _, c := range flatten(et) {
-			n := elemArr(et, nil, c.Suffix)
+			n := elemArr(et, nil, c)
 			s := arrSort('E', c.Sort)
 			e.hset(h, n, s, store(e.harr(h, n, s), r, fmt.Sprintf("((as const (Array Int %s)) %s)", c.Sort, zeroTerm(c.Sort))), r)
 		}
@@ -527,8 +561,8 @@ func fieldName(x *ssa.FieldAddr) string {
 
 func mapDom(mt *types.Map) string { return "MD_" + typeKey(mt) }
 func mapLen(mt *types.Map) string { return "ML_" + typeKey(mt) }
-func mapVal(mt *types.Map, suffix string) string {
-	return "MV_" + typeKey(mt) + suffix
+func mapVal(mt *types.Map, c Comp) string {
+	return regRef("MV_"+typeKey(mt)+c.Suffix, c, 2)
 }
 
 func (fr *Frame) alloc(x *ssa.Alloc, st *BState) Val {
@@ -539,7 +573,7 @@ func (fr *Frame) alloc(x *ssa.Alloc, st *BState) Val {
 		r := e.newRef(h, fr.vname(x)+"#arr")
 		et := at.Elem()
 		for _, c := range flatten(et) {
-			n := elemArr(et, nil, c.Suffix)
+			n := elemArr(et, nil, c)
 			s := arrSort('E', c.Sort)
 			e.hset(h, n, s, store(e.harr(h, n, s), r, fmt.Sprintf("((as const (Array Int %s)) %s)", c.Sort, zeroTerm(c.Sort))), r)
 		}
@@ -655,7 +689,7 @@ func (fr *Frame) binop(x *ssa.BinOp, st *BState) Val {
 	case token.ADD:
 		if isString(t) {
 			e.strUsed = true
-			return scalar(t, sx("str.cat", a.S, b.S))
+			return scalar(t, sx("gstr.cat", a.S, b.S))
 		}
 		return scalar(t, sx("+", a.S, b.S))
 	case token.SUB:
@@ -746,10 +780,10 @@ func (fr *Frame) sliceOp(x *ssa.Slice, st *BState) Val {
 			lo = "0"
 		}
 		if hi == "" {
-			hi = sx("str.len", base.S)
+			hi = sx("gstr.len", base.S)
 		}
-		fr.safety(st, "slice", and(sx("<=", "0", lo), sx("<=", lo, hi), sx("<=", hi, sx("str.len", base.S))), x.Pos(), "string slice bounds out of range")
-		return scalar(x.Type(), sx("str.sub", base.S, lo, hi))
+		fr.safety(st, "slice", and(sx("<=", "0", lo), sx("<=", lo, hi), sx("<=", hi, sx("gstr.len", base.S))), x.Pos(), "string slice bounds out of range")
+		return scalar(x.Type(), sx("gstr.sub", base.S, lo, hi))
 	}
 	var arr, ln string
 	var et types.Type
@@ -781,7 +815,7 @@ func (fr *Frame) sliceOp(x *ssa.Slice, st *BState) Val {
 	h := st.heap
 	r := e.newRef(h, fr.vname(x)+"#arr")
 	for _, c := range flatten(et) {
-		n := elemArr(et, nil, c.Suffix)
+		n := elemArr(et, nil, c)
 		s := arrSort('E', c.Sort)
 		H := e.harr(h, n, s)
 		inner := e.fresh(fr.vname(x)+"#inner"+c.Suffix, "(Array Int "+c.Sort+")")
@@ -832,7 +866,7 @@ func (fr *Frame) lookup(x *ssa.Lookup, st *BState) Val {
 		cs := flatten(mt.Elem())
 		ts := make([]string, len(cs))
 		for i, c := range cs {
-			V := sel(e.harr(h, mapVal(mt, c.Suffix), arrSort('V', c.Sort)), m.S)
+			V := sel(e.harr(h, mapVal(mt, c), arrSort('V', c.Sort)), m.S)
 			ts[i] = e.define(fr.vname(x)+c.Suffix, c.Sort, ite(okT, sel(V, k.S), zeroTerm(c.Sort)))
 		}
 		v, _ = fromComps(mt.Elem(), ts)
@@ -865,7 +899,7 @@ func (e *Enc) mapStore(h *Heap, mt *types.Map, m, k string, v Val) {
 	cs := flatten(mt.Elem())
 	vs := comps(v)
 	for i, c := range cs {
-		n := mapVal(mt, c.Suffix)
+		n := mapVal(mt, c)
 		s := arrSort('V', c.Sort)
 		VH := e.harr(h, n, s)
 		e.hset(h, n, s, store(VH, m, store(sel(VH, m), k, vs[i])), m)
@@ -902,11 +936,47 @@ func (fr *Frame) next(x *ssa.Next, st *BState) Val {
 	cs := flatten(mt.Elem())
 	ts := make([]string, len(cs))
 	for i, c := range cs {
-		ts[i] = e.define(fr.vname(x)+"#v"+c.Suffix, c.Sort, sel(sel(e.harr(h, mapVal(mt, c.Suffix), arrSort('V', c.Sort)), it.It.MapRef), kt.S))
+		ts[i] = e.define(fr.vname(x)+"#v"+c.Suffix, c.Sort, sel(sel(e.harr(h, mapVal(mt, c), arrSort('V', c.Sort)), it.It.MapRef), kt.S))
 	}
 	vt, _ := fromComps(mt.Elem(), ts)
 	e.assume("true", e.typeFacts(vt, h))
 	e.hset(h, it.It.Visited, "(Array Int Bool)", ite(ok, store(V, kt.S, "true"), V), "")
 	e.note("map iteration order is universally quantified (ghost visited set)")
 	return Val{T: x.Type(), K: kTuple, Fs: []Val{scalar(types.Typ[types.Bool], ok), kt, vt}}
+}
+
+type frameInvItem struct {
+	name, sort string
+	refs       []string
+}
+
+// topModifies resolves the modifies clause of the function being verified in its entry state.
+func (e *Enc) topModifies() (map[string]string, []cellMod, bool) {
+	if e.top == nil || e.top.spec == nil || !e.top.spec.HasMod || e.topNames == nil {
+		return nil, nil, false
+	}
+	if e.modWhole == nil {
+		e.modWhole, e.modCells = e.resolveModifies(e.top.spec, e.topNames, e.h0)
+	}
+	return e.modWhole, e.modCells, true
+}
+
+func (e *Enc) frameGoal(H, name string, refs []string) string {
+	e.names["fr"]++
+	r := e.fresh(fmt.Sprintf("frame.r%d", e.names["fr"]), "Int")
+	var excl []string
+	for _, ref := range refs {
+		excl = append(excl, not(eq(r, ref)))
+	}
+	ini := e.declare(name+"@0", e.hsort(name))
+	return implies(and(append([]string{sx("<=", r, q("alloc@0"))}, excl...)...), eq(sel(H, r), sel(ini, r)))
+}
+
+func (e *Enc) frameFact(H, name string, refs []string) string {
+	var excl []string
+	for _, ref := range refs {
+		excl = append(excl, not(eq("r", ref)))
+	}
+	ini := e.declare(name+"@0", e.hsort(name))
+	return fmt.Sprintf("(forall ((r Int)) (! (=> %s (= (select %s r) (select %s r))) :pattern ((select %s r))))", and(append([]string{sx("<=", "r", q("alloc@0"))}, excl...)...), H, ini, H)
 }
